@@ -174,6 +174,27 @@ CLAIMS["C01"] = dict(
    note="Partial: the universal theorem run(gen g) = peg g (soundness/completeness through cache and helper rules) is not "
         "proved; for the explored cases the equality is machine-checked case by case. The evaluator's agreement with the "
         "relation is by construction, not yet a theorem. Known finding: lookahead over a forced item consumes.")
+CLAIMS["C19"] = dict(
+   text="Coq theorems (Props/C19.v), the empty-marker half in full: for every grammar, token list, position and action "
+        "interpretation, an item (rule) that the reference PEG semantics matches WITHOUT consuming is nullable under every "
+        "assignment closed under the equations of the extracted table (induction on PEG derivations), hence -- with the "
+        "least-fixed-point theorem of C03 -- flagged nullable by the analysis, which is when FirstSetCalculator adds ''. The "
+        "table conditions are decidable and re-proved each run. The first-token half is decided by the model "
+        "(Analysis/FirstSets.v, tied by K-first on hand-written and random grammars) plus a brute-force oracle on the "
+        "implementation: first tokens of all successful matches of every rule on all inputs up to length 3.",
+   design="6/C19", technique="Coq proof by induction on PEG derivations (empty marker) + FIRST-set model correspondence + brute-force first-token oracle",
+   note="Partial: soundness of the first-token half is not yet a theorem (it needs the closedness of the computed table and "
+        "the lookahead-subtraction argument); it is covered by correspondence and the oracle.")
+CLAIMS["C07"] = dict(
+   text="Partial (clauses ii-iv on the error-construction path this repository owns; clause i -- refuses exactly what the "
+        "host interpreter refuses -- is not covered, see DESIGN.md section 11). Coq (Props/C07.v, instances of the C14 line "
+        "theorems): for every raw stream obeying tokenize's contract, every history and every line range touched by pulled "
+        "tokens, fetching the error text does not raise and yields the real lines, identically with and without a path. On "
+        "the implementation: token-level deletion/insertion/replacement/duplication edits of the test sources (incl. blank "
+        "lines and multi-line tokens inside the range) through parse_string and parse_file: never an internal exception, "
+        "line/column inside the text, both entry points identical.",
+   design="6/C07", technique="Coq line-table theorems (instances of C14) + token-edit sweep through both entry points",
+   note="Known findings: backslash-only continuation line (KeyError, string mode); bytes/str literal concatenation (TypeError).")
 NOT_YET = {}
 NOT_APPLICABLE = {
  "C06": "equates the generated parser with CPython's own C parser/ast.parse, for which no executable model exists "
